@@ -1181,6 +1181,11 @@ def main(ctx, replay):
     dist.update({"app_mutation_cases": len(mcases), "mcp_mutation_cases": len(mmcases)})
     samples.append({"part": "d", "case": mcases[1]["name"], "observed": {k: mres[1][k] for k in ("err", "applied", "file_same", "mid_seen", "mid_compiles")}})
 
+    # ------------------------------------------------------------------ (e) a refused reload and what the authenticators REMEMBER
+    mem = refused_reload_keeps_memory(ctx, hbin, rng)
+    dist["refused_reload_memory"] = mem
+    evaluations += mem["requests"]
+
     # ------------------------------------------------------------------ lint / model freshness
     if lint:
         if ctx.violations:
@@ -1233,6 +1238,79 @@ admin_api { listen "__ADMIN__" }
   pull { path /pull/m3 }
 }
 """
+
+
+def refused_reload_keeps_memory(ctx, hbin, rng):
+    """A reload that is refused (a later route's secret cannot be loaded) would have raised the tolerance of an earlier HMAC route.
+    "Exactly as before" includes what the running authenticator remembers: a nonce re-used legitimately after the OLD window is
+    accepted, a replay inside it refused - the statuses a process that never saw the refused file gives (real ingress server,
+    runtimeState and reloadConfig over loopback; clock injected)."""
+    from lib import authgen as G
+    SEC = 10 ** 9
+    DUR = {"1s": SEC, "2s": 2 * SEC, "5m": 300 * SEC, "10m": 600 * SEC}
+    ts = 1_700_000_000 + rng.randrange(0, 100000)
+    t = ts * SEC
+
+    def text(tol, unloadable):
+        s = G.PRELUDE + G.route_block("/hooks", G.hmac_block(secrets=["raw:k1"], tolerance=tol)) + G.route_block("/other")
+        if unloadable:
+            s += G.route_block("/zlate", G.hmac_block(secrets=["env:VERIF_C18_UNSET_SECRET"], tolerance="5m"))
+        return s
+
+    def request(tsv, nonce):
+        body = b'{"a":1}'
+        hs = [("X-Signature", G.sign(b"k1", str(tsv), "POST", "/hooks", body)), ("X-Timestamp", str(tsv)), ("X-Nonce", nonce)]
+        return G.b64(G.wire("POST", "/hooks", hs, body))
+    scen, wants = [], []
+    for k, (old_tol, new_tol) in enumerate((("1s", "5m"), ("2s", "10m"), ("5m", "10m"))):
+        late = DUR[old_tol] + SEC
+        r1, r2 = request(ts, "mem-%d" % k), request(ts + late // SEC, "mem-%d" % k)
+
+        def rq(now, w):
+            return {"op": "req", "now": now, "wire": w, "half": False, "fwd": "", "fail_at": 0}
+        for variant in ("refused", "control"):
+            steps = [{"op": "load", "cfg": 0}, rq(t, r1), rq(t + 1, r1)]
+            if variant == "refused":
+                steps += [{"op": "load", "cfg": 1}, {"op": "load", "cfg": 1}]
+            steps += [rq(t + DUR[old_tol], r1), rq(t + late, r2), rq(t + late + 1, r2)]
+            scen.append({"name": "mem-%s-%d" % (variant, k), "configs": [text(old_tol, False), text(new_tol, True)], "env": {}, "steps": steps})
+            wants.append((variant, old_tol, new_tol))
+    rc, out, err = C.harness_run(hbin, ["auth-run"], {"dir": os.path.join(ctx.scratch, "c18mem"), "scenarios": scen}, timeout=300)
+    if rc != 0:
+        raise RuntimeError("auth-run (refused reload memory) failed: " + err[-1500:])
+    res = json.loads(out)
+    stats = {"scenarios": len(scen), "requests": 0, "refused_reloads": 0}
+    control = {}
+    for s, (variant, old_tol, new_tol), im in zip(scen, wants, res):
+        if im.get("err"):
+            raise RuntimeError("scenario %s: %s" % (s["name"], im["err"]))
+        statuses = [io["status"] for st, io in zip(s["steps"], im["steps"]) if st["op"] == "req"]
+        stats["requests"] += len(statuses)
+        loads = [io["load_ok"] for st, io in zip(s["steps"], im["steps"]) if st["op"] == "load"]
+        if variant == "control":
+            control[(old_tol, new_tol)] = statuses
+            continue
+        stats["refused_reloads"] += sum(1 for x in loads[1:] if not x)
+        rep = {"kind": "fault_sequence", "case": {"old_tolerance": old_tol, "refused_file_tolerance": new_tol, "steps": [dict(st, wire="...") for st in s["steps"]],
+                                                "refused_file": s["configs"][1]}, "observed": {"statuses": statuses, "reloads_ok": loads}}
+        if any(loads[1:]):
+            _report(ctx, "reload-failed-but-applied:unloadable-secret", "a file whose later route names an unloadable secret was accepted by reloadConfig", rep)
+        wants_s = control.get((old_tol, new_tol))
+    # compare after all controls are known
+    for s, (variant, old_tol, new_tol), im in zip(scen, wants, res):
+        if variant != "refused":
+            continue
+        statuses = [io["status"] for st, io in zip(s["steps"], im["steps"]) if st["op"] == "req"]
+        want = control[(old_tol, new_tol)]
+        if statuses != want or want != [202, 401, 401, 202, 401]:
+            _report(ctx, "reload-failed-but-changed:authenticator-memory",
+                    "tolerance %s, refused file would have set %s: the requests (accepted, replay, replay at the window edge, same nonce under a fresh "
+                    "timestamp after the window, its replay) are answered %s after two refused reloads; a process that never saw the refused file answers %s "
+                    "(and the window semantics give [202, 401, 401, 202, 401])" % (old_tol, new_tol, statuses, want),
+                    {"kind": "fault_sequence", "case": {"old_tolerance": old_tol, "refused_file_tolerance": new_tol, "refused_file": s["configs"][1],
+                                                        "steps": [dict(st, wire="...") for st in s["steps"]]},
+                     "observed": {"statuses": statuses}, "expected": {"statuses": want}})
+    return stats
 
 
 def run_mutations(ctx, hbin, rng):
